@@ -144,6 +144,7 @@ func trimStack(b []byte) string {
 
 func (w *World) run() {
 	rand.Seed(w.c.Cfg.RandSeed)
+	curNameSet = w.c.Cfg.NameSet
 	g.VerifResetFreeLists()
 	w.baseG = runtime.NumGoroutine()
 	w.setupCallbacks()
@@ -256,7 +257,58 @@ func (w *World) openOrig(first bool) {
 	if st == nil {
 		w.failf("open-nil", "NewStore returned nil store without error")
 	}
+	w.installCmps(st, ms)
 	w.orig = &Handle{st: st, m: ms}
+}
+
+// cmpViaSet reports whether this case re-supplies comparators the other
+// documented way: SetCollection(name, compare) on the freshly loaded store
+// instead of the KeyCompareForCollection callback.
+func (w *World) cmpViaSet() bool {
+	return w.c.Cfg.CmpViaSet && w.c.Cfg.Callbacks&CbKeyCompare == 0
+}
+
+// installCmps re-installs the non-default comparators on a store that was just
+// loaded from the file (NewStore, FlushRevert) when the case does not use the
+// KeyCompareForCollection callback.
+func (w *World) installCmps(st *g.Store, ms *MState) {
+	if !w.cmpViaSet() {
+		return
+	}
+	for _, name := range ms.Names() {
+		if mc := ms.Colls[name]; mc != nil && mc.Cmp != CmpBytes {
+			if st.GetCollection(name) == nil {
+				continue // the contents oracle reports the missing collection
+			}
+			st.SetCollection(name, CmpFunc(mc.Cmp))
+			w.ev["cmp_installed_by_setcollection"]++
+		}
+	}
+}
+
+// openCopy opens a private copy of a file image the way the case opens stores
+// (callbacks minus reference counting; comparators of ms re-supplied).
+func (w *World) openCopy(f *MemFile, ms *MState) (*g.Store, error) {
+	saved := map[string]int{}
+	for k, v := range w.cmpLoad {
+		saved[k] = v
+	}
+	w.setCmpLoad(ms)
+	defer func() {
+		for k := range w.cmpLoad {
+			delete(w.cmpLoad, k)
+		}
+		for k, v := range saved {
+			w.cmpLoad[k] = v
+		}
+	}()
+	cbs := w.cbs
+	cbs.ItemAlloc, cbs.ItemAddRef, cbs.ItemDecRef = nil, nil, nil
+	st, err := g.NewStoreEx(f.CloneQuiet(), cbs)
+	if err == nil && st != nil {
+		w.installCmps(st, ms)
+	}
+	return st, err
 }
 
 func (w *World) setCmpLoad(ms *MState) {
@@ -858,6 +910,7 @@ func (w *World) execRevert() bool {
 	if len(w.durable) > 0 {
 		w.durable = w.durable[:len(w.durable)-1]
 	}
+	w.installCmps(h.st, target)
 	h.m = target.Clone()
 	want := int64(0)
 	if len(w.durable) > 0 {
@@ -891,6 +944,16 @@ func (w *World) execSnapRevert(sh *Handle) bool {
 		target = w.durable[sh.rev-2].ms
 	} else {
 		target = NewMState()
+	}
+	if w.cmpViaSet() {
+		for _, mc := range target.Colls {
+			if mc.Cmp != CmpBytes {
+				// without the callback a snapshot has no documented way to get its
+				// comparators back after its own FlushRevert: not generated
+				w.ev["skipped_snaprevert_cmpviaset"]++
+				return true
+			}
+		}
 	}
 	w.setCmpLoad(target)
 	img := w.file.Image()
@@ -1365,22 +1428,7 @@ func (w *World) probe() {
 	} else {
 		want = NewMState()
 	}
-	saved := map[string]int{}
-	for k, v := range w.cmpLoad {
-		saved[k] = v
-	}
-	w.setCmpLoad(want)
-	defer func() {
-		for k := range w.cmpLoad {
-			delete(w.cmpLoad, k)
-		}
-		for k, v := range saved {
-			w.cmpLoad[k] = v
-		}
-	}()
-	cbs := w.cbs
-	cbs.ItemAlloc, cbs.ItemAddRef, cbs.ItemDecRef = nil, nil, nil
-	st, err := g.NewStoreEx(w.file.CloneQuiet(), cbs)
+	st, err := w.openCopy(w.file, want)
 	if err != nil {
 		if len(w.durable) == 0 && len(w.file.B) > 0 && strings.Contains(err.Error(), "couldn't find roots") {
 			// a file holding bytes but no root record (failed first flush): the documented error
